@@ -214,14 +214,17 @@ def main (args : List String) : IO Unit := do
       | some h => if h ≠ k.h then IO.println "O bad-op"; continue
       | none => st := { st with seen := st.seen.insert tag k.h }
     st := { st with nOps := st.nOps + 1 }
-    let before := st.ts[t]!
-    match step cfg K.h st.ts op with
+    let (beforeN, beforeItems) := match st.ts[t]? with | some b => (b.n, b.nitems) | none => (0, 0)
+    -- hand the tables over to `step` as their only owner (in-place slot updates in compiled code)
+    let ts := st.ts
+    st := { st with ts := [] }
+    match step cfg K.h ts op with
     | .error f =>
       IO.println s!"O {name} {f.name}"
       st := { st with halted := true }
     | .ok (ts', o) =>
       let after := ts'[t]!
-      let withCs := forceCs || after.n ≠ before.n
+      let withCs := forceCs || after.n ≠ beforeN
       let line := match name with
         | "new" | "set" | "assign" | "copy" => s!"O {name} | {dump after key withCs}"
         | "rem" | "resize" => s!"O {name} {obsStr o} | {dump after key withCs}"
@@ -234,9 +237,9 @@ def main (args : List String) : IO Unit := do
         | ["assign", _, s] | ["copy", _, s] => st.kinds.set! t (st.kinds[s.toNat!]!)
         | _ => st.kinds
       -- statistics
-      let rehashed := after.n ≠ before.n
+      let rehashed := after.n ≠ beforeN
       let keyErr := match o with | .raised .KeyError => true | _ => false
-      let replaced := name == "set" && after.nitems == before.nitems && !rehashed
+      let replaced := name == "set" && after.nitems == beforeItems && !rehashed
       st := { st with ts := ts', kinds := kinds', maxSlots := max st.maxSlots after.n,
                       nRehash := st.nRehash + (if rehashed then 1 else 0),
                       nKeyErr := st.nKeyErr + (if keyErr then 1 else 0),
